@@ -71,6 +71,12 @@ def scenarios(tier):
         progs.append({"custom": "mc.families.c18_sockets:build", "kind": kind, "a_msgs": [3],
                       "b_msgs": [], "max_bytes": 2, "end": "eof", "delay_reader": False,
                       "local_close": True, "label": f"{kind} receive/send after local close"})
+        for n, mb in ((5, 2), (3, 1)) if tier == "quick" else ((5, 2), (3, 1), (9, 4), (2, 2)):
+            progs.append({"custom": "mc.families.c18_sockets:build", "kind": kind, "a_msgs": [n],
+                          "b_msgs": [], "max_bytes": mb, "end": "eof", "delay_reader": False,
+                          "local_close": True, "pre_receive": True,
+                          "label": f"{kind} local close with received data left over "
+                                   f"({n} bytes, max_bytes={mb})"})
     return progs
 
 
@@ -119,7 +125,11 @@ def build(world, program):
                     log("send_exc", name, type(e).__name__)
                     if isinstance(e, asyncio.CancelledError):
                         raise
-                    return
+                    if not program.get("busy"):
+                        return
+                    # (lost the direction to the second task: still end the stream afterwards)
+                    await busy_done.wait()
+                    break
             if end == "eof":
                 await stream.send_eof()
                 log("send_eof", name)
@@ -141,9 +151,13 @@ def build(world, program):
                     return
                 log("recv", name, chunk.hex())
 
+        go2 = anyio.Event()
+        busy_done = anyio.Event()
+        if program.get("busy"):
+            ctl.add_action("go2", go2.set)
+
         async def busy_second(name, stream, which):
-            await anyio.sleep(0)
-            await anyio.sleep(0)
+            await go2.wait()
             try:
                 log("busy_call", name)
                 if which == "send":
@@ -155,8 +169,30 @@ def build(world, program):
                 log("busy_result", name, type(e).__name__)
                 if isinstance(e, asyncio.CancelledError):
                     raise
+            finally:
+                busy_done.set()
 
         async with anyio.create_task_group() as tg:
+            if program.get("local_close") and program.get("pre_receive"):
+                async def bg_send():
+                    try:
+                        await a.send(a_msgs[0])
+                    except (BrokenResourceError, ClosedResourceError):
+                        pass
+
+                tg.start_soon(bg_send)
+                first = await b.receive(mb)
+                log("recv", "B", first.hex())
+                await b.aclose()
+                for _ in range(len(a_msgs[0]) + 2):
+                    try:
+                        r = await b.receive(mb)
+                        log("recv_after_close", "ok", r.hex())
+                    except BaseException as e:
+                        log("recv_after_close", type(e).__name__)
+                        break
+                await a.aclose()
+                return
             if program.get("local_close"):
                 await a.send(a_msgs[0])
                 await b.aclose()
@@ -236,6 +272,23 @@ def check(program, ex):
     v = []
     log = ex.log
     mb = program["max_bytes"]
+    if program.get("local_close") and program.get("pre_receive"):
+        sent = b"".join(payload(program["a_msgs"], 0))
+        got = b"".join(bytes.fromhex(e[4]) for e in log if e[2] == "recv" and e[3] == "B")
+        rs = [e[3:] for e in log if e[2] == "recv_after_close"]
+        for r in rs:
+            if r[0] == "ok":
+                c = bytes.fromhex(r[1])
+                if not (1 <= len(c) <= mb):
+                    v.append(f"receive({mb}) after local close returned {len(c)} bytes")
+                got += c
+        if not sent.startswith(got):
+            v.append(f"B received {got.hex()}, not a prefix of what A sent ({sent.hex()})")
+        if not rs or rs[-1][0] != "ClosedResourceError":
+            v.append(f"receive() on the locally closed stream ended with "
+                     f"{rs[-1] if rs else None} instead of ClosedResourceError once the "
+                     f"received data was handed out")
+        return v
     if program.get("local_close"):
         d = {e[2]: e[3:] for e in log if e[2] in ("recv_after_close", "send_after_close")}
         r = d.get("recv_after_close")
@@ -281,6 +334,8 @@ def check(program, ex):
         which = program["busy"]
         begin, endk, who = (("tx_call", ("sent", "send_exc"), "A") if which == "send"
                             else ("rx_call", ("recv", "recv_end"), "B"))
+        # the first task's operation must span the second task's whole call (the second call
+        # starts with a checkpoint; by the time it touches the stream the first may be done)
         inflight = False
         at_call = None
         for e in log:
@@ -290,6 +345,8 @@ def check(program, ex):
                 inflight = False
             elif e[2] == "busy_call":
                 at_call = inflight
+            elif e[2] == "busy_result":
+                at_call = at_call and inflight
         if not br:
             v.append("second task on the same direction never finished")
         elif at_call and br[0][4] != "BusyResourceError":
